@@ -42,15 +42,23 @@ fn run_scenario(out: &mut Out, scn: &Value, tag: usize) {
         let mut gtxt = String::new();
         let mut ctxt = String::new();
         let mut rtxt = String::from("edge_id,restriction_name,restriction_value,restriction_unit\n");
+        let mut rrows: Vec<(usize, usize, String)> = vec![];
         for (i, c) in cands.iter().enumerate() {
             // a two-point line string whose centroid (midpoint) is the lattice point
             let (x, y) = (c["x"].as_i64().unwrap(), c["y"].as_i64().unwrap());
             let (dx, dy) = (c["hx"].as_i64().unwrap_or(3), c["hy"].as_i64().unwrap_or(2));
             gtxt.push_str(&format!("LINESTRING ({:.6} {:.6}, {:.6} {:.6})\n", (x - dx) as f64 * UNIT, (y - dy) as f64 * UNIT, (x + dx) as f64 * UNIT, (y + dy) as f64 * UNIT));
             ctxt.push_str(&format!("{}\n", c["cls"]));
-            for r in c["restr"].as_array().unwrap() {
-                rtxt.push_str(&format!("{},{},{},{}\n", i, r["kind"].as_str().unwrap(), r["val"], r["unit"].as_str().unwrap()));
+            for (k, r) in c["restr"].as_array().unwrap().iter().enumerate() {
+                rrows.push((i, k, format!("{},{},{},{}\n", i, r["kind"].as_str().unwrap(), r["val"], r["unit"].as_str().unwrap())));
             }
+        }
+        // the restriction file is a table: in every other scenario the rows of one edge are not adjacent
+        if cands.len() % 2 == 0 {
+            rrows.sort_by_key(|r| (r.1, r.0));
+        }
+        for r in &rrows {
+            rtxt.push_str(&r.2);
         }
         std::fs::write(&gpath, gtxt).unwrap();
         let cpath = dir.join(format!("mm-classes-{}.txt", tag));
